@@ -599,7 +599,7 @@ def cmc_lattice(repo, col):
 
 # ---------------------------------------------------------------------
 def _table_values(module, name):
-    node = module.constants.get(name)
+    node = module.const(name)
     if isinstance(node, ast.Dict):
         vals = []
         for v in node.values:
